@@ -237,6 +237,14 @@ func LinkObj(r *rand.Rand) map[string]any {
 			m["height"] = float64(r.Intn(2000))
 			m["width"] = float64(r.Intn(2000))
 		}
+		if r.Intn(4) == 0 {
+			// dimensions at the edges: zero, one, products beyond 32 and 64 bits
+			dims := []float64{0, 0, 1, 65536, 4294967296, 3037000500, 9007199254740992, 1.8446744073709552e19}
+			m["height"], m["width"] = dims[r.Intn(len(dims))], dims[r.Intn(len(dims))]
+			if r.Intn(3) == 0 {
+				delete(m, "height")
+			}
+		}
 	} else {
 		m["url"] = u
 	}
@@ -265,6 +273,17 @@ func ActorObj(r *rand.Rand, o JSONOpts, depth int) map[string]any {
 	}
 	if r.Intn(2) == 0 {
 		m["icon"] = LinkObj(r)
+		if r.Intn(3) == 0 {
+			// several alternatives of one kind: the best one is picked by comparing their dimensions
+			a, b := LinkObj(r), LinkObj(r)
+			a["type"], b["type"] = "Link", "Link"
+			a["href"], b["href"] = "https://files.example/a.png", "https://files.example/b.png"
+			delete(a, "url")
+			delete(b, "url")
+			a["mediaType"], b["mediaType"] = "image/png", "image/png"
+			a["width"], b["height"] = float64(r.Intn(3)), float64(r.Intn(3))
+			m["icon"] = []any{a, b}
+		}
 	}
 	if r.Intn(2) == 0 {
 		m["image"] = []any{LinkObj(r), LinkObj(r)}
